@@ -74,6 +74,26 @@ def verify(prop, wt):
     return sid
 
 
+def detect_in(sid, wt, props):
+    """run the checks against a worktree that already has the change applied (VERIF_REPO), /repo untouched"""
+    dst = os.path.join(VERIF, "seeded", sid)
+    meta = json.load(open(os.path.join(dst, "meta.json")))
+    props = props or [meta["property"]]
+    rc, out = sh(["git", "diff", "--stat", "--", "src"], cwd=wt)
+    if not out.strip():
+        sh(["git", "apply", os.path.join(dst, "patch.diff")], cwd=wt)
+    for p in props:
+        t = time.time()
+        env = dict(os.environ, VERIF_REPO=wt)
+        rc, out = sh([os.path.join(VERIF, "check"), p], cwd=VERIF, env=env)
+        sigs = [l.strip()[len("signature: "):] for l in out.splitlines() if l.strip().startswith("signature: ")]
+        meta["detected_by"][p] = {"exit": rc, "violations": sigs[:6], "wall_s": round(time.time() - t, 1),
+                                  "tier": "quick", "seed": int(os.environ.get("VERIF_SEED", "1")), "via": "VERIF_REPO=" + wt}
+        print(sid, p, "exit", rc, sigs[:4])
+    with open(os.path.join(dst, "meta.json"), "w") as f:
+        json.dump(meta, f, indent=1)
+
+
 def detect(sid, props):
     dst = os.path.join(VERIF, "seeded", sid)
     meta = json.load(open(os.path.join(dst, "meta.json")))
@@ -104,5 +124,7 @@ def detect(sid, props):
 if __name__ == "__main__":
     if sys.argv[1] == "verify":
         verify(sys.argv[2], sys.argv[3])
+    elif sys.argv[1] == "detect-in":
+        detect_in(sys.argv[2], sys.argv[3], sys.argv[4:])
     else:
         detect(sys.argv[2], sys.argv[3:])
